@@ -248,6 +248,36 @@ def long_tail_terms(rng):
     return ('cat', tuple(('ann', 'A', ('group', ('cat', ('p', ('softline',), 'q')))) if i % 7 == 0 else 'w' for i in range(n)))
 
 
+def lazy_body_terms(rng):
+    """documents in which a lazily evaluated body (align / hang) mixes forced breaks, always_break and ordinary breaks in varying ORDER, inside a
+    group or fill item with text before and after: what the look-ahead sees of such a body (normalised: always_break hoisted to its start) decides
+    the enclosing scope"""
+    word = lambda: rng.choice(['a', 'bb', 'first,', 'x', '# args', 'second'])
+    def ab_part():
+        return ('ab', rng.choice([word(), ('cat', (word(), ('line',), word())), ('nil',), ('group', ('cat', (word(), ('softline',), word())))]))
+    parts = [word(), rng.choice([('hardline',), ('line',), ('softline',), ('hardline',)]), ab_part(), rng.choice([('line',), ('softline',), word()]), word()]
+    if rng.random() < 0.6:
+        rng.shuffle(parts)
+    parts = parts[:rng.randint(2, 5)]
+    if rng.random() < 0.3:
+        parts = [p if not (isinstance(p, tuple) and p[0] == 'ab') or rng.random() < 0.5 else ('ann', 'A', p) for p in parts]
+    body = ('cat', tuple(parts))
+    lazy = rng.choice([('align', body), ('hang', rng.choice([0, 2, 4]), body), ('nest', 0, body), ('align', ('nest', 2, body)), ('align', ('group', body))])
+    pre = rng.choice([(), ('begin', ('line',)), (word(),), (word(), ('softline',))])
+    post = rng.choice([(), (('line',), '-> result'), (('softline',), word()), (('line',), word(), ('line',), word())])
+    inner = ('cat', pre + (lazy,) + post)
+    shape = rng.randrange(5)
+    if shape == 0:
+        return ('group', inner)
+    if shape == 1:
+        return ('fill', (word(), ('line',), inner, ('line',), word()))
+    if shape == 2:
+        return ('cat', ('head', ('nest', 4, ('cat', (('line',), ('group', inner))))))
+    if shape == 3:
+        return ('group', ('cat', ('[', ('group', inner), ('softline',), ']')))
+    return ('fill', (inner, ('softline',), word(), ('line',), ('group', inner)))
+
+
 def flat_width(t):
     """width of the term laid out flat (None if it contains a forced newline)"""
     if isinstance(t, str):
